@@ -31,6 +31,8 @@ struct Scene {
     std::vector<ConnRef *> conns;
     std::vector<std::vector<Point> > cps;
     bool orth;
+    bool notx;       // Router::setTransactionUse(false): every call is processed at once
+    int opsSinceTx;  // calls that change the scene since the last TX line
 };
 
 static double num(const std::string &s)
@@ -178,6 +180,9 @@ int main(int argc, char **argv)
             if (pen >= 0) sc.r->setRoutingParameter(segmentPenalty, pen);
             // optional 5th field: 0 switches the (default-on) hyperedge improvement off
             { std::string h; if (is >> h) sc.r->setRoutingOption(improveHyperedgeRoutesMovingJunctions, h != "0"); }
+            // optional 6th field: 1 switches transactions off (objects are added, moves processed, connectors routed immediately)
+            sc.notx = false; sc.opsSinceTx = 0;
+            { std::string h; if (is >> h) { sc.notx = (h == "1"); if (sc.notx) sc.r->setTransactionUse(false); } }
             printf("SCENE %s\n", sid.c_str());
             continue;
         }
@@ -193,6 +198,7 @@ int main(int argc, char **argv)
             continue;
         }
         if (dead || !sc.r) continue;
+        if (cmd != "TX") sc.opsSinceTx++;
         try
         {
             if (cmd == "SHAPE")
@@ -217,14 +223,22 @@ int main(int argc, char **argv)
                 int idx; std::string a, b; is >> idx >> a >> b;
                 sc.juncs.push_back(new JunctionRef(sc.r, Point(num(a), num(b)), 3000 + idx));
             }
-            else if (cmd == "CONN")
+            else if (cmd == "CONN" || cmd == "CONND")
             {
+                // CONND: every checkpoint carries arrival and departure ConnDirFlags (Checkpoint(p, ad, dd))
+                bool withDirs = cmd == "CONND";
                 int idx; is >> idx;
                 ConnEnd a = readEnd(is, sc); ConnEnd b = readEnd(is, sc);
                 ConnRef *c = new ConnRef(sc.r, a, b, 2000 + idx);
                 int ncp; is >> ncp;
                 std::vector<Checkpoint> cps; std::vector<Point> cpp;
-                for (int k = 0; k < ncp; ++k) { std::string x, y; is >> x >> y; cps.push_back(Checkpoint(Point(num(x), num(y)))); cpp.push_back(Point(num(x), num(y))); }
+                for (int k = 0; k < ncp; ++k)
+                {
+                    std::string x, y; is >> x >> y;
+                    if (withDirs) { unsigned ad, dd; is >> ad >> dd; cps.push_back(Checkpoint(Point(num(x), num(y)), (ConnDirFlags) ad, (ConnDirFlags) dd)); }
+                    else cps.push_back(Checkpoint(Point(num(x), num(y))));
+                    cpp.push_back(Point(num(x), num(y)));
+                }
                 if (ncp > 0) c->setRoutingCheckpoints(cps);
                 sc.conns.push_back(c); sc.cps.push_back(cpp);
             }
@@ -258,6 +272,9 @@ int main(int argc, char **argv)
             else if (cmd == "TX")
             {
                 bool processed = sc.r->processTransaction();
+                // transactions off: the calls since the last TX line were each processed (and rerouted) when they were made
+                if (sc.notx && sc.opsSinceTx > 0) processed = true;
+                sc.opsSinceTx = 0;
                 dump(sc, tx++, processed);
             }
         }
